@@ -29,6 +29,8 @@ STMTS = [
     ("100 format(3(i5))", set()),
     ("200 format (i5, f(8.3))", set()),
     ("go to (100, 200) i", set()),
+    ("entry second(y)\n    x = g(y)", {"g"}),
+    ("ENTRY third (y) result(r)\n    x = 1", set()),
     ("x = f(y); call s(g(x))", {"f", "s", "g"}),
     ("x = f( &\n      g(y))", {"f", "g"}),
     ("call s(x) ! call p(x)", {"s"}),
